@@ -64,6 +64,8 @@ def run(chk, tmp, replay=None):
     for x in d["disagreements"]:
         kind = "panic" if x["real"].startswith("panic") else ("selects-wrong-set" if x["model"].startswith("ok") and x["real"].startswith("ok") else "error-mismatch")
         chk.violation(f"selection:{kind}:{x['model']}->{x['real']}", f"graph {json.dumps(x['graph'])} invocation {json.dumps(x['inv'])}: specification {x['model']}, real Selector {x['real']}", x)
+    allc0 = json.load(open(cases))
+    chk.sample({"graph": allc0["graphs"][0]["g"], "invocation": allc0["invocations"][0], "expected": allc0["graphs"][0]["results"][0]})
     if chk.violations:
         return   # the selector already disagrees in-process; a build of a non-closed selection may not even terminate
     # CLI sample with an empty cache
